@@ -321,7 +321,9 @@ class And(_Bool):
         return result
 
     def __and__(self, other):
-        # reduce number of layers of spec
+        # reduce number of layers of spec (a default belongs to this layer: keep it nested)
+        if self.default is not _MISSING:
+            return And(self, other)
         return And(*(self.children + (other,)))
 
 
@@ -343,7 +345,9 @@ class Or(_Bool):
         return scope[glom](target, self.children[-1], scope)
 
     def __or__(self, other):
-        # reduce number of layers of spec
+        # reduce number of layers of spec (a default belongs to this layer: keep it nested)
+        if self.default is not _MISSING:
+            return Or(self, other)
         return Or(*(self.children + (other,)))
 
 
